@@ -221,7 +221,8 @@ def _text(rng, fields):
     t = rng.choice(WORDS)
     if fields and rng.random() < 0.5:
         k = rng.randint(0, 3)
-        t = rng.choice(['${%d}' % k, '${%d:ph}' % k, t + ' ${%d}' % k, '${%d:p q} ' % k + t + '${%d}' % (k + 1)])
+        t = rng.choice(['${%d}' % k, '${%d:ph}' % k, t + ' ${%d}' % k, '${%d:p q} ' % k + t + '${%d}' % (k + 1),
+                        '${%d}${%d:ph}' % (k, k + 1), '${%d:a}${%d:b}' % (k + 1, k) + t, t + '${%d}${%d:q}${%d:r} ' % (k, k + 2, k + 1) + t])
     return t
 
 
